@@ -88,10 +88,10 @@ func (f *atomicFile) Commit() error {
 	if err := f.File.Close(); err != nil {
 		return err
 	}
-	// rename can't overwrite on windows
-	if err := os.Remove(f.name); err != nil && !os.IsNotExist(err) {
-		return err
-	}
+	// os.Rename replaces an existing destination atomically on every supported
+	// platform (MoveFileEx with MOVEFILE_REPLACE_EXISTING on windows), so the
+	// destination must not be unlinked first: that would leave a window in which
+	// a crash loses the file altogether.
 	if err := os.Rename(f.File.Name(), f.name); err != nil {
 		return err
 	}
